@@ -18,9 +18,9 @@ from lib import common, fixgen
 
 LEVEL = 'model_checking'
 HDR = [49, 56, 34, 52, 5001, 1128, 50, 115, 43, 369]       # 115, 43, 369: hard-coded header tags the synthetic transport dictionary does not declare
-BODY = [11, 55, 58, 9999, 38]
+BODY = [11, 55, 58, 9999, 38, 1]
 TRL = [93, 5002]
-VALS = ['a', 'x=y', '1', 'IBM', 'v' * 60, 'caf\xe9', ' ']
+VALS = ['a', 'x=y', '1', 'IBM', 'v' * 60, 'caf\xe9', ' ', '=ACCT', '==', '=']
 
 
 def skeletons(rng, quick):
@@ -45,14 +45,31 @@ def gen_cases(rng, quick):
         rng.shuffle(hh)
         for tag in hh:
             fields.append((tag, rng.choice(VALS)))
+        xmlpair = []
         if xml:
             data = rng.choice(['<a/>', '<x>' + fixgen.SOH + '</x>', 'd=1' + fixgen.SOH + '8=9', '<long>' + 'z' * 40 + '</long>'])
-            fields.append((212, str(len(data))))
-            fields.append((213, data))
+            xmlpair = [(212, str(len(data))), (213, data)]
+        xml_late = xml and rng.random() < 0.5          # XMLData (header fields) after body fields, or right after a group
+        if xml and not xml_late:
+            fields += xmlpair
         bb = list(b)
         rng.shuffle(bb)
-        for tag in bb:
-            fields.append((tag, rng.choice(VALS)))
+        items = [[(tag, rng.choice(VALS))] for tag in bb]
+        grp = rng.random() < 0.3
+        if grp:
+            # a repeating group the application dictionary defines (identical entries: without a dictionary they are
+            # repeated plain fields)
+            items.insert(rng.randint(0, len(items)), [(453, '2'), (448, 'P'), (447, 'D'), (452, '1'), (448, 'P'), (447, 'D'), (452, '1')])
+        if xml_late:
+            gi = [i for i, it in enumerate(items) if it[0][0] == 453]
+            pos = gi[0] + 1 if gi and rng.random() < 0.7 else rng.randint(0, len(items))
+            items.insert(pos, xmlpair)
+        gidx = []
+        for it in items:
+            for (tg, v) in it:
+                fields.append((tg, v))
+                if tg in (448, 447, 452):
+                    gidx.append(len(fields) + 2)            # position in the whole message (8 and 9 come first)
         for tag in t:
             fields.append((tag, rng.choice(['1', 'sig'])))
         for dict_ in ('none', 'app', 'fixt'):
@@ -85,6 +102,7 @@ def gen_cases(rng, quick):
                 for (tg, v) in allf:
                     truth.append(None)
                 cases.append({'lead': lead if lead == 'ok' else 'bad', 'leadkind': lead, 'delta': delta, 'dict': dict_, 'xml': xml,
+                              'gidx': gidx if lead == 'ok' else [],
                               'allf': [[int(tg), v] for tg, v in allf], 'bytes': list(raw.encode('latin1'))})
     return cases
 
@@ -126,7 +144,8 @@ def run(ctx):
         f.write(fixgen.dict_xml('FIXT', [8, 9, 35, 49, 56, 34, 52, 50, 1128, 212, 213, 5001], [93, 89, 5002, 10], {}, fixt=True))
     with open(add, 'w') as f:
         f.write(fixgen.dict_xml('FIX', [8, 9, 35, 49, 56, 34, 52, 50, 212, 213], [93, 89, 10],
-                                {'D': ('NewOrderSingle', [(11, False), (55, False), (58, False), (38, False)])}))
+                                {'D': ('NewOrderSingle', [(11, False), (55, False), (58, False), (38, False), (1, False),
+                                                          ('group', 453, False, [(448, False), (447, False), (452, False)])])}))
     cases = gen_cases(rng, quick)
     for c in cases:
         c['fields'] = truth_fields(c)
